@@ -203,6 +203,10 @@ Definition with_ari (d : bool) (x : cert) : cert :=
 Definition fresh_cert (w : world) (n : name) : cert :=
   Cert (w_fresh w) [n] true false false false false None.
 
+(** a handshake that runs alone has nobody to wait for: any wait is a self-wait *)
+Definition is_selfwait (e : effect) : bool := match e with ESelfWait _ => true | _ => false end.
+Definition no_selfwait (gs : list (list effect)) : bool := negb (existsb (existsb is_selfwait) gs).
+
 (** effects that can be observed from outside the process (a self-wait: the harness sees the
     handshake goroutine in the waiting select with nobody left to release it) *)
 Definition observable (e : effect) : bool :=
